@@ -384,6 +384,16 @@ func (g *Prog) simple(d int) *gt.T {
 		g.define(name, t)
 		return gt.Assign("=", gt.Ident(name), e)
 	case 4, 5:
+		if !g.V2 && len(g.PointKeys) > 0 && r.Intn(5) == 0 {
+			// compound assignment on a name that (probably) exists only as a
+			// point key: it must create a local variable
+			name := g.pick(g.PointKeys)
+			if !g.protected[name] {
+				op := g.pick([]string{"+=", "-=", "*="})
+				rhs := g.Expr(g.pickTy(TyInt, TyStr, TyFloat), d-1)
+				return gt.Assign(op, gt.Ident(name), rhs)
+			}
+		}
 		// compound assignment on a defined numeric or string variable
 		for _, t := range []Ty{TyInt, TyFloat, TyStr} {
 			vs := g.varsOf(t)
@@ -463,7 +473,22 @@ func (g *Prog) simple(d int) *gt.T {
 func (g *Prog) containerStmt(d int) *gt.T {
 	r := g.R
 	lists, maps := g.varsOf(TyList), g.varsOf(TyMap)
-	switch r.Intn(5) {
+	switch r.Intn(7) {
+	case 5, 6:
+		// a slice of a list must be a new list: keep both alive
+		if len(lists) > 0 {
+			src := g.pick(lists)
+			dst := g.assignable()
+			if dst != src {
+				form := SliceForms[r.Intn(len(SliceForms))]
+				step := g.bound(d)
+				if isZeroLit(step) || r.Intn(2) == 0 {
+					step = gt.Int(1)
+				}
+				g.define(dst, TyList)
+				return gt.Assign("=", gt.Ident(dst), SliceForm(gt.Ident(src), form, gt.Int(int64(r.Intn(2))), g.bound(d), step))
+			}
+		}
 	case 0:
 		// alias
 		if vs := append(append([]string{}, lists...), maps...); len(vs) > 0 {
